@@ -467,6 +467,35 @@ fam('accept_reject', [
     ]
 ])
 
+# ------------------------------------------------------------------ generated statements (the C12 generator, values inline)
+from dsim import c12 as C12  # noqa
+grng = random.Random(777)
+gen_ = C12.Gen(grng, pdens=0.35)
+gcat = {n: cat_id(c) for n, c in C12.CATALOGS.items()}
+gen_plan, gen_render, gen_parse = [], [], []
+seen_g = set()
+while len(gen_plan) < 260:
+    ch, cat = gen_.statement()
+    marked = C12.text_of(ch)
+    n = marked.count(C12.MARK)
+    if n > 6:
+        continue
+    tag = grng.randrange(8)
+    inline = C12.subst(marked, [C12.value_for(k, tag)[1] for k in range(n)])
+    if inline in seen_g or outcome('mindsdb', inline).startswith('err'):
+        continue
+    seen_g.add(inline)
+    gen_plan.append(P(inline, gcat[cat]))
+    if n and len(gen_parse) < 80:
+        gen_parse.append({'k': 'parse', 'd': 'mindsdb', 'sql': marked.replace(C12.MARK, '?')})
+        gen_plan.append(P(marked.replace(C12.MARK, '?'), gcat[cat]))
+    if len(gen_render) < 240:
+        rd = ['mysql', 'postgresql', 'sqlite', 'mssql', 'oracle', 'postgres', 'Snowflake'][len(gen_render) % 7]
+        gen_render.append({'k': 'render', 'd': 'mindsdb', 'sql': inline, 'rd': rd, 'fb': bool(len(gen_render) % 2)})
+fam('generated_one', [o for o in gen_plan if o['cat'] == gcat['one']][:40])
+fam('generated_two', [o for o in gen_plan if o['cat'] == gcat['two']][:60])
+fam('generated_model', [o for o in gen_plan if o['cat'] == gcat['model']][:40])
+
 # flow ops from plan ops whose plan succeeds
 flow_ops = []
 for op in plan_ops + [o for f in ('pred_spelling', 'join_tables', 'ts_pred', 'dml') for o in families[f]]:
@@ -512,7 +541,7 @@ probes = [
     {'k': 'render', 'd': 'mindsdb', 'sql': "select interval '1 day'", 'rd': 'oracle', 'fb': True},
 ]
 
-pool = parse_ops + mut_ops + mal_ops + plan_ops + render_ops + flow_ops
+pool = parse_ops + mut_ops + mal_ops + plan_ops + render_ops + flow_ops + gen_plan + gen_render + gen_parse
 # dedupe
 seen = set()
 pool2 = []
